@@ -22,9 +22,10 @@ Definition is_success (v : option str) : bool :=
   match v with Some s => str_eqb s STATUS_SUCCESS | None => false end.
 
 (* response.py status_ok.  [table] is STATUSCODE2EXCEPTION (regenerated). *)
-Definition status_ok_with (table : list (str * str)) (st : option status_view) : result unit :=
+Definition status_ok_gen (fixd : bool) (table : list (str * str)) (st : option status_view) : result unit :=
   match st with
-  | None => Ok tt                                  (* `if self.response.status:` is false *)
+  | None => if fixd then Err (s2l "StatusError")   (* repair in /repo: no <Status> at all is refused *)
+            else Ok tt                             (* before: `if self.response.status:` was false and True was returned *)
   | Some s =>
       match st_code s with
       | None => Err (s2l "AttributeError")        (* status.status_code is None *)
@@ -43,7 +44,10 @@ Definition status_ok_with (table : list (str * str)) (st : option status_view) :
                end
       end
   end.
+Definition status_ok_with := status_ok_gen true.
 Definition status_ok := status_ok_with status_table.
+(* the library before the repair: a response without <Status> passed *)
+Definition status_ok_before_fix := status_ok_gen false status_table.
 
 Record verify_in := {
   id_mismatch : bool;          (* request_id and in_response_to set and different *)
